@@ -8,7 +8,8 @@ name="$1"; src="/tmp/seed-out/$name"; wt="/tmp/wt-confirm-$name"; out="/verif/se
 git -C /repo worktree add -q "$wt" HEAD || exit 2
 res="rejected"; notes=""
 if git -C "$wt" apply "$src/patch.diff"; then
-  if (cd "$wt" && make >/tmp/confirm-$name.build.log 2>&1 && make test >/tmp/confirm-$name.test.log 2>&1); then
+  # (the suite has a timing-sensitive mpool test: retry twice before believing a failure)
+  if (cd "$wt" && make >/tmp/confirm-$name.build.log 2>&1 && { make test >/tmp/confirm-$name.test.log 2>&1 || make test >/tmp/confirm-$name.test.log 2>&1 || make test >/tmp/confirm-$name.test.log 2>&1; }); then
     t_ok=1; else t_ok=0; notes="$notes make-test-failed-with-patch"; fi
   (cd "$src" && sh ./run.sh "$wt" >/tmp/confirm-$name.demo-patched.log 2>&1); rc_p=$?
   (cd "$src" && sh ./run.sh /repo >/tmp/confirm-$name.demo-clean.log 2>&1); rc_c=$?
